@@ -48,7 +48,7 @@ pub struct Scenario {
 
 /// An operation that is meant to succeed and do real work on this tree (a
 /// fault can only turn work into "success without the work" if there is work).
-fn success_step(tree: &TreeSpec, kind: u8, sel: u16, sel2: u16, capi: bool) -> WStep {
+pub fn success_step(tree: &TreeSpec, kind: u8, sel: u16, sel2: u16, capi: bool) -> WStep {
     let files: Vec<B> = tree.entries.iter().filter(|(_, n)| matches!(n, Node::File { .. } | Node::Fifo | Node::Chr)).map(|(p, _)| p.clone()).collect();
     let links: Vec<B> = tree.entries.iter().filter(|(_, n)| matches!(n, Node::Symlink { .. })).map(|(p, _)| p.clone()).collect();
     let dirs = tree.dirs();
